@@ -1,6 +1,77 @@
 import TabulaModel.Util
+import TabulaModel.Model.Detect
+import TabulaModel.Model.Drm
+/-
+Line protocol of C20 (see harness/c20/c20.go for the wire format).
+-/
 namespace Tabula.C20H
+open Tabula Tabula.Detect Tabula.Drm
 
-def handle (_op : String) (_args : List String) : String := "bad-op"
+def unhexS (s : String) : Option Str := (unhex s).map (·.map (·.toNat))
+
+def parseMember (s : String) : Option Member :=
+  match s.splitOn ":" with
+  | [n] => do let n ← unhexS n; pure { name := n, data := none }
+  | [n, d] => do let n ← unhexS n; let d ← unhexS d; pure { name := n, data := some d }
+  | _ => none
+
+def parseMembers (s : String) : Option (List Member) :=
+  if s == "-" then some [] else (s.splitOn ",").mapM parseMember
+
+/-- `<zip>` field: `-` not a ZIP (never consulted), `err` zip.NewReader failed -/
+def parseZip (s : String) : Option (Option (List Member)) :=
+  if s == "err" then some none else (parseMembers s).map some
+
+def fmtOpt : Option Format → String
+  | none => "err"
+  | some f => f.name
+
+def parseEntry (s : String) : Option Entry :=
+  match s.splitOn ":" with
+  | [a, u] => do let a ← unhexS a; let u ← unhexS u; pure ⟨a, u⟩
+  | _ => none
+
+def parseDMember (s : String) : Option DMember :=
+  if s == "R" then some .rights
+  else if s == "B" then some (.encryption none)
+  else if s == "O" then some .other
+  else if s == "E" then some (.encryption (some []))
+  else if s.startsWith "E" then
+    ((s.drop 1).toString.splitOn ";").mapM parseEntry |>.map (fun es => .encryption (some es))
+  else none
+
+def parseDMembers (s : String) : Option (List DMember) :=
+  if s == "-" then some [] else (s.splitOn ",").mapM parseDMember
+
+def handle (op : String) (args : List String) : String :=
+  match op, args with
+  | "c20.ext", [n] => match unhexS n with
+    | some n => (detect n).name | none => "bad-op"
+  | "c20.magic", [b] => match unhexS b with
+    | some b => (detectFromMagic b).name | none => "bad-op"
+  | "c20.zipfmt", [ms] => match parseMembers ms with
+    | some ms => (detectZip ms).name | none => "bad-op"
+  | "c20.detect", [file, zip] => match unhexS file, parseZip zip with
+    | some f, some z => fmtOpt (detectFromReader f z) | _, _ => "bad-op"
+  | "c20.admission", [name, file, zip, t] => match unhexS name, unhexS file, parseZip zip with
+    | some n, some f, some z =>
+      let extF := detect n
+      let det := detectFromReader f z
+      let v := if validateFormat extF det = .ok then "ok" else "err"
+      -- the reader that ensureReader goes on to open: the document's own
+      -- reader accepts it, the HTML reader accepts any bytes, every other
+      -- reader rejects a document of another kind
+      let o := match ensureReader extF det with
+        | .proceed g => if g = Format.html ∨ g.name = t then "ok" else "err"
+        | _ => "err"
+      s!"v={v} open={o}"
+    | _, _, _ => "bad-op"
+  | "c20.obf", [a] => match unhexS a with
+    | some a => toString (isFontObfuscation a) | none => "bad-op"
+  | "c20.content", [u] => match unhexS u with
+    | some u => toString (isContentFile u) | none => "bad-op"
+  | "c20.drm", [ms] => match parseDMembers ms with
+    | some ms => if checkForDRM ms then "drm" else "ok" | none => "bad-op"
+  | _, _ => "bad-op"
 
 end Tabula.C20H
